@@ -134,7 +134,7 @@ class C01(Prop):
         if kind == "enfa":
             # the epsilon-free classes either refuse the 'epsilon' spelling (documented exception) or -- if they
             # let it through -- the automaton they hold must still answer per the property
-            builds += [("nfa", "add"), ("nfa", "ctor")]
+            builds += [("nfa", "add"), ("nfa", "ctor"), ("nfa", "ctor_tf_only")]
         full = scheme in ("int",)
         for cls, via in builds:
             wl = W2
